@@ -14,6 +14,7 @@ import numpy as np
 
 from .. import core
 from .. import lattice as L
+from ..faultfs import LISTING_ORDERS, VerifFS
 
 LEVEL = "exploration"
 RETRY = dict(wait_exponential_multiplier=1, wait_exponential_max=1, stop_max_attempt_number=3)     # the keys of the library's own default, 1 ms waits
@@ -201,6 +202,14 @@ def run_one(col, scratch, fid, n, active, kin, npk, mode, compression, previous,
         # empty option dictionaries
         del kw["npartitions"]
         kw.update(filesystem="file", storage_options={}, engine_kwargs={})
+    # the order a filesystem lists a directory in is its own business: three quarters of the cases run on an
+    # instrumented local filesystem that answers `ls` reversed / oldest first / newest first
+    order = LISTING_ORDERS[(n + kin + npk + fid) % 4]
+    case["listing"] = order
+    fs_read = None
+    if order != "native" and "filesystem" not in kw:
+        kw["filesystem"] = VerifFS(listing=order)
+        fs_read = VerifFS(listing=order)
     try:
         if previous != "none":
             nprev = 8 if previous == "larger" else 2
@@ -243,7 +252,7 @@ def run_one(col, scratch, fid, n, active, kin, npk, mode, compression, previous,
     want = sorted(rows_of(P0), key=repr)
     tb = P0[active].total_bounds
     try:
-        indep = read_parquet_dask(path)
+        indep = read_parquet_dask(path) if fs_read is None else read_parquet_dask(path, filesystem=fs_read)
         indep_parts = [d.compute(scheduler="synchronous") for d in indep.to_delayed()]
         indep_comp = indep.compute(scheduler="synchronous")
     except Exception as ex:
